@@ -550,6 +550,30 @@ def replay(doc):
 
 
 def main():
+    # SCALE of rejections: more than a thousand typed rejections in one process (with the usual limit of 1024 open files): each one must
+    # still be the typed error (something opened per error and never closed runs out)
+    many = None
+    try:
+        import resource
+        soft, hard = resource.getrlimit(resource.RLIMIT_NOFILE)
+        if soft == resource.RLIM_INFINITY or soft > 1024:
+            resource.setrlimit(resource.RLIMIT_NOFILE, (1024, hard))
+        hh = History()
+        ag_ = Agent(n_variables=1, n_dimensions=1)
+        ag_.position = np.array([[1.0]])
+        ag_.fit = 1.0
+        hh.dump(agents=[ag_], best_agent=ag_)
+        for n_ in range(1300):
+            try:
+                hh.get('agents', (0,) if n_ % 2 else [0, 0])
+                many = 'invalid get #%d was accepted' % n_
+                break
+            except Exception as ex:  # noqa: BLE001
+                if hlib.exc_kind(ex) not in ('SizeError', 'TypeError'):
+                    many = 'rejection #%d of an invalid index raised %s: %s instead of the typed error' % (n_, type(ex).__name__, str(ex)[:100])
+                    break
+    except ImportError:
+        pass
     p = hlib.payload()
     if p and 'replay' in p:
         hlib.emit(replay(p['replay']))
@@ -562,7 +586,7 @@ def main():
         out = run_sequence(s)
         out['spec'] = s
         seqs.append(out)
-    hlib.emit({'runs': runs, 'skipped': skipped, 'seqs': seqs, 'numpy': np.__version__})
+    hlib.emit({'runs': runs, 'skipped': skipped, 'seqs': seqs, 'numpy': np.__version__, 'many_rejections': many})
 
 
 if __name__ == '__main__':
